@@ -270,3 +270,43 @@ def single_transport(fl: int, ws: bool, n_a: int, n_b: int, n_c: int, overlap: b
 
 
 from vf.validate.stubs import ALL as VALIDATE  # noqa: E402  (stub-vs-real conformance, run before the obligations)
+
+
+def _text_to_client(fl, ws, text, second):
+    """An application send() of an arbitrary (symbolic) text arrives at the client as exactly that text."""
+    sut = mk(fl, async_handlers=False)
+    try:
+        r = sut.open('websocket' if ws else 'polling')
+        sut.settle()
+        sid = sut.sids()[0]
+        sut.app_send(sid, text)
+        if second:
+            sut.app_send(sid, 'tail')
+        sut.settle()
+        if ws:
+            frames = r.peer.frames[1:]
+            got = [f[1:] for f in frames if isinstance(f, str) and f[:1] == '4']
+        else:
+            g = sut.get(sid)
+            sut.settle()
+            body = sut.body(g).decode('utf-8')
+            # independent split: the separator cannot occur inside the payload here
+            got = [p[1:] for p in body.split('\x1e') if p[:1] == '4']
+        want = [text] + (['tail'] if second else [])
+        if got != want:
+            return fail(PROP, 'PAYLOAD-UNCHANGED', 'send(%r) arrived as %r' % (text, got), flavour=sut.flavour,
+                        transport='websocket' if ws else 'polling')
+        return ''
+    finally:
+        sut.close()
+
+
+@cond(quick=dict(S=3, timeout=170, parts=dict(FL=[0, 1], WS=[0, 1])), thorough=dict(S=5, timeout=1200, parts=dict(FL=[0, 1], WS=[0, 1])))
+def symbolic_text_to_client(fl: int, ws: int, text: str, second: bool) -> str:
+    """
+    pre: fl == P.FL and ws == P.WS and len(text) <= P.S
+    post: _ == ''
+    """
+    if '\x1e' in text:
+        return ''
+    return verdict(_text_to_client(fl, bool(ws), text, second))
